@@ -115,7 +115,33 @@ pub fn build_items(rng: &mut Rng, mode: Mode, n_valid: usize, with_junk: bool, s
             items.push(Item::Tick);
         }
         if with_junk && rng.chance(1, 3) {
-            let j: (&'static str, Vec<u8>) = match rng.below(12) {
+            let j: (&'static str, Vec<u8>) = match rng.below(14) {
+                // a frame whose distribution header is fine and carries cache entries (which the sender now
+                // considers installed) but whose terms cannot be decoded
+                12 | 13 if mode != Mode::PassThrough => ("good-header-then-undecodable-terms", {
+                    let atoms: Vec<String> = vec!["uid".into(), "peer@127.0.0.1".into(), "rust@127.0.0.1".into(), "killed".into(), format!("fresh{}", uid), "some_name".into()];
+                    let space = *rng.pick(&[20usize, 300]);
+                    let refs = plan_message(rng, sender, &atoms, 100, space);
+                    let control = control_of_kind(2, uid).0;
+                    let mut msg = write_message(&refs, &[&control]);
+                    match rng.below(3) {
+                        0 => {
+                            // the control term loses its end
+                            let n = msg.len();
+                            msg.truncate(n - 3);
+                        }
+                        1 => {
+                            // a payload nested beyond the limit
+                            msg.push(131);
+                            for _ in 0..300 {
+                                msg.extend_from_slice(&[104, 1]);
+                            }
+                            msg.extend_from_slice(&[97, 7]);
+                        }
+                        _ => msg.extend_from_slice(&[131, 255, 1]),
+                    }
+                    msg
+                }),
                 9 => ("payload-nested-beyond-the-limit", {
                     let mut b = vec![112];
                     b.extend(ref_encode_canonical(&control_of_kind(1, 1).0).unwrap());
